@@ -590,6 +590,10 @@ def build_shape(case):
             # element (1,..) of every dummy by literal index: sensitive to a changed lower bound
             e1 = ['d', [[f'x{k}', [lit(1)] * r]]]
             body.append(['assign', e1, ['b', '+', e1, ['r', B.DYADIC[k % len(B.DYADIC)]]]])
+            if k > 0:
+                # ... and its last element through UBOUND: sensitive to a wrong extent
+                el = ['d', [[f'x{k}', [['f', 'ubound', [var(f'x{k}'), lit(j + 1)], {}] for j in range(r)]]]]
+                body.append(['assign', el, ['b', '+', el, ['r', B.DYADIC[(k + 3) % len(B.DYADIC)]]]])
         if feat.get('shape_inquiry'):
             body.append(['assign', ['d', [[x0, [lit(1)] * r0]]],
                          ['b', '+', ['d', [[x0, [lit(1)] * r0]]],
@@ -745,7 +749,8 @@ OPTS = {
 def cases(draw, modes=None, triggers=None):
     """triggers: {feature: bool} - which known-finding triggers may be generated"""
     mode = draw(st.sampled_from(modes or MODES))
-    feat = {f: draw(st.booleans()) for f in FEATURES[mode]}
+    # drawn as "switched off": Hypothesis' first (minimal) example of every shard then has all features ON instead of none
+    feat = {f: not draw(st.booleans()) for f in FEATURES[mode]}
     avoided = []
     for t in TRIGGERS[mode]:
         want = draw(st.integers(0, 3)) == 0
